@@ -867,6 +867,57 @@ pub mod awkward_rawident {
     }
 }
 
+/// Generic definitions instantiated several times where a concrete component type
+/// coincides with a generic argument (same type id) - legal Rust that the shape
+/// comparison of same-path types has to survive (any verdict, but no panic).
+pub mod coincidence {
+    use super::*;
+    #[derive(TypeInfo)]
+    pub struct Tagged<T, U> {
+        pub first: T,
+        pub tag: u32,
+        pub second: U,
+    }
+    #[derive(TypeInfo)]
+    pub enum TaggedE<T, U> {
+        A(T, u32),
+        B { u: U, fixed: u8 },
+    }
+    #[derive(TypeInfo)]
+    pub struct Same<T, U> {
+        pub a: T,
+        pub b: U,
+    }
+    #[derive(TypeInfo)]
+    pub struct Wrapped<T> {
+        pub a: Vec<T>,
+        pub b: Vec<u8>,
+        pub c: Option<T>,
+        pub d: Option<u16>,
+    }
+    #[derive(TypeInfo)]
+    pub struct TupleG<T>(pub T, pub u64, pub (T, u64));
+    #[derive(TypeInfo)]
+    pub struct User {
+        pub a: Tagged<u32, u8>,
+        pub b: Tagged<u32, u16>,
+        pub c: TaggedE<u32, u8>,
+        pub d: TaggedE<u32, u16>,
+        pub e: Same<u8, u8>,
+        pub f: Same<u8, u16>,
+        pub g: Same<u16, u8>,
+        pub h: Wrapped<u8>,
+        pub i: Wrapped<u16>,
+        pub j: TupleG<u64>,
+        pub k: TupleG<u8>,
+        pub l: Tagged<Same<u8, u8>, Same<u8, u8>>,
+        pub m: Tagged<u8, u32>,
+    }
+    pub fn metas() -> Vec<MetaType> {
+        metas![User]
+    }
+}
+
 /// Two "crate versions": distinct Rust types that report the same scale-info path
 /// with different shapes (manual `TypeInfo`, as a second version of a dependency would).
 pub mod versions {
@@ -994,6 +1045,7 @@ pub fn families() -> Vec<Entry> {
 pub fn dup_families() -> Vec<Entry> {
     let list: Vec<(&str, Vec<MetaType>)> = vec![
         ("assoc_dup", assoc::metas_dup()),
+        ("coincidence", coincidence::metas()),
         ("versions", versions::metas()),
         (
             "assoc_versions",
